@@ -72,6 +72,8 @@ C03Verdict(R) ==
 
 C05Verdict(R) ==
   IF ~R.fick.dec.ok THEN (IF R.tag = "plain" THEN "plain-data-refused" ELSE "refused")
+  ELSE IF R.tag = "plain" /\ R.fick.plain.ran /\ ~R.fick.plain.equal
+       THEN "plain-data-differs"          \* executed with the real builtins: not equal (value and type) to the original object
   ELSE IF ~Acyclic(s) THEN "na-cyclic"
   ELSE IF ~R.fick.run.ok THEN "exec-failed"
   ELSE IF SameVal(R.fick.run.res, Result(s)) THEN "ok" ELSE "value-mismatch"
